@@ -1021,15 +1021,21 @@ panel columns of A lie inside `asub`/`nzval` with rows in range) the model of th
 * `segrep[0..nseg)` is `segSpec i w`: the concatenation, over the panel columns in order, of each column's
   postorder `(colPost i k).reverse` restricted to the representatives that no earlier column has put there
   (the effect of the shared `marker1`), without duplicates, all `< jcol`.
-(Because the set found by the earlier columns is closed under successors, "postorder of the full search
-restricted to the new representatives" and "postorder of the search that treats the earlier ones as visited" are
-the same list; the restriction form is what is proved.) -/
+* equivalently (`dfsList_visited`, `segSpec_eq_visAcc`: the set found by the earlier columns is closed under
+  successors, so restricting the postorder of a fresh search to the new representatives = searching with the
+  earlier ones already visited): `segrep[0..nseg)` REVERSED is `visAcc i w`, the accumulator of ONE recursive
+  search `dfsList` run over the panel columns in order, each column started with everything the earlier columns
+  found counted as visited — the "visited on entry" generality of `colDfs_eq_recursive`. -/
 theorem panelDfs_eq_recursive {V : Type} (i : Input V) (h : wfPanelIn i = true) :
     ∃ o, panelDfs i (fuelBound i) = some o ∧
       (∀ k : Nat, (k : Int) < i.w → ∀ s : Nat, (s : Int) < i.jcol → (rd o.repfnz (k * i.m + s) ≠ EMPTY ↔ s ∈ colPost i k)) ∧
       0 ≤ o.nseg ∧ slice o.segrep 0 o.nseg = segSpec i i.w.toNat ∧ (segSpec i i.w.toNat).Nodup ∧
-      (∀ t ∈ segSpec i i.w.toNat, 0 ≤ t ∧ t < i.jcol) :=
-  panelDfs_spec h
+      (∀ t ∈ segSpec i i.w.toNat, 0 ≤ t ∧ t < i.jcol) ∧
+      (slice o.segrep 0 o.nseg).reverse = (visAcc i i.w.toNat).map Int.ofNat := by
+  obtain ⟨o, h1, h2, h3, h4, h5, h6⟩ := panelDfs_spec h
+  have hw : 1 ≤ i.w := (wfPanelIn_unpack h).1.2.1
+  refine ⟨o, h1, h2, h3, h4, h5, h6, ?_⟩
+  rw [h4, (segSpec_eq_visAcc h i.w.toNat (by omega)).1, ← map_reverse, reverse_reverse]
 
 /-- **C02 (`segrep` after `[sdcz]panel_dfs`: no duplicates, the union of the reaches, topological).**  On every
 state accepted by `wfPanelIn`: `segrep[0..nseg)` = `P` (as integers) where `P` has no duplicates, lists exactly
@@ -1043,7 +1049,7 @@ theorem panelDfs_segrep_topo {V : Type} (i : Input V) (h : wfPanelIn i = true) :
       (∀ a r : Nat, (a : Int) ∈ P → r ∈ ColDfs.adjR i.cenv i.lsub a → [(r : Int), (a : Int)] <+ P) ∧
       (∀ t ∈ P, 0 ≤ t ∧ t < i.jcol) ∧
       (∀ k, ∀ r ∈ ColDfs.adjR i.cenv i.lsub k, k < r ∧ r < i.jcol.toNat) := by
-  obtain ⟨o, h1, _, h3, h4, h5, h6⟩ := panelDfs_eq_recursive i h
+  obtain ⟨o, h1, _, h3, h4, h5, h6, _⟩ := panelDfs_eq_recursive i h
   have hE := wfPanelIn_env h
   have hadj := ColDfs.adjR_lt hE
   have hw : 1 ≤ i.w := (wfPanelIn_unpack h).1.2.1
@@ -1095,6 +1101,7 @@ example := panelDfs_column_eq_recursive_partial (wfPanelIn_colOK0 (i := exP) (by
 example := panelDfs_eq_recursive exP (by decide +kernel)
 example := panelDfs_segrep_topo exP (by decide +kernel)
 example : segSpec exP 2 = [5, 2, 4, 0, 3] := by decide +kernel
+example : visAcc exP 2 = [3, 0, 4, 2, 5] := by decide +kernel
 example : (colPost exP 0, colPost exP 1) = ([0, 4, 2, 5], [2, 5, 3]) := by decide +kernel
 
 end Slu.PanelDfs
